@@ -380,4 +380,242 @@ theorem matchM_eq (text pat : Bytes) (tlen plen : Nat) (pfx sub : Bool)
           rw [this]
           simp [he]
 
+/-! ### the query splitter and the per-resource filter are the specification's `selects` -/
+
+theorem scanEq_eq (q : Bytes) : scanEq q = (q.takeWhile (· != 0x3D)).length := by
+  induction q with
+  | nil => rfl
+  | cons b r ih =>
+    by_cases h : (b != 0x3D) = true
+    · simp [scanEq, h, ih]
+    · simp [scanEq, h]
+
+theorem scanEq_le (q : Bytes) : scanEq q ≤ q.length := by
+  induction q with
+  | nil => simp [scanEq]
+  | cons b r ih => simp only [scanEq]; split <;> simp <;> omega
+
+theorem take_scanEq (q : Bytes) : q.take (scanEq q) = q.takeWhile (· != 0x3D) := by
+  induction q with
+  | nil => rfl
+  | cons b r ih =>
+    by_cases h : (b != 0x3D) = true
+    · simp [scanEq, h, ih]
+    · simp [scanEq, h]
+
+theorem nameIs_eq (q : Bytes) (n : Nat) (lit : Bytes) (hn : n ≤ q.length) :
+    nameIs q n lit = R.ok (q.take n == lit) := by
+  unfold nameIs
+  by_cases h : n = lit.length
+  · rw [if_pos h, memcmpEq_ok q lit lit.length (by omega) (Nat.le_refl _), List.take_length, h]
+  · rw [if_neg h]
+    have : (q.take n == lit) = false := by
+      rw [beq_eq_false_iff_ne]
+      intro he
+      have := congrArg List.length he
+      simp at this; omega
+    rw [this]
+
+theorem isListAttrM_eq (q : Bytes) (n : Nat) (hn : n ≤ q.length) (l : List Bytes) :
+    isListAttrM q n l = R.ok (l.any (q.take n == ·)) := by
+  induction l with
+  | nil => rfl
+  | cons a rest ih =>
+    unfold isListAttrM
+    rw [nameIs_eq q n a hn]
+    cases h : (q.take n == a) <;> simp only [List.any_cons, h, ih, Bool.false_or, Bool.true_or]
+
+theorem findAttrM_eq (q : Bytes) (n : Nat) (hn : n ≤ q.length) (as : List Attr) :
+    findAttrM q n as = R.ok (findAttr (q.take n) as) := by
+  induction as with
+  | nil => rfl
+  | cons a rest ih =>
+    unfold findAttrM findAttr
+    by_cases h : a.name.length = n
+    · rw [if_pos h, memcmpEq_ok a.name q n (by omega) hn]
+      have : a.name.take n = a.name := by rw [← h, List.take_length]
+      rw [this]
+      cases he : (a.name == q.take n) <;> simp [ih]
+    · rw [if_neg h]
+      have : (a.name == q.take n) = false := by
+        rw [beq_eq_false_iff_ne]
+        intro he
+        have := congrArg List.length he
+        simp at this; omega
+      simp [this, ih]
+
+theorem firstIs_eq (p : Bytes) (c : UInt8) : firstIs p p.length c = R.ok (p.head? == some c) := by
+  cases p with
+  | nil => simp [firstIs]
+  | cons b r => simp [firstIs, rd]
+
+theorem lastIs_eq (p : Bytes) (c : UInt8) : lastIs p p.length c = R.ok (p.getLast? == some c) := by
+  cases p with
+  | nil => simp [lastIs]
+  | cons b r =>
+    have : (b :: r)[(b :: r).length - 1]? = (b :: r).getLast? := (List.getLast?_eq_getElem? (l := b :: r)).symm
+    simp only [lastIs, rd, this]
+    cases h : (b :: r).getLast? with
+    | none => simp at h
+    | some x => simp
+
+theorem isQuoted_eq (v : Bytes) :
+    isQuoted v = R.ok (decide (2 ≤ v.length ∧ v.head? = some 0x22 ∧ v.getLast? = some 0x22)) := by
+  unfold isQuoted
+  by_cases h : v.length < 2
+  · rw [if_pos h]; simp; intro h2; omega
+  · rw [if_neg h, firstIs_eq]
+    have h2 : 2 ≤ v.length := by omega
+    cases hf : (v.head? == some 0x22) with
+    | false =>
+      have : ¬ v.head? = some 0x22 := by simpa using hf
+      simp [this]
+    | true =>
+      have : v.head? = some 0x22 := by simpa using hf
+      simp only [lastIs_eq]
+      congr 1
+      rw [Bool.eq_iff_iff]
+      simp [this, h2]
+
+
+theorem stripSlash_eq (tok : Bytes) :
+    stripSlash tok = if (tok.head? == some 0x2F) = true then tok.drop 1 else tok := by
+  unfold stripSlash
+  by_cases h : tok.head? = some 0x2F
+  · simp [h]
+  · simp [h]
+
+theorem starSplit_eq (p : Bytes) :
+    starSplit p = (p.getLast? == some 0x2A,
+                   p.take (if (p.getLast? == some 0x2A) = true then p.length - 1 else p.length)) := by
+  unfold starSplit
+  by_cases h : p.getLast? = some 0x2A
+  · simp [h, List.dropLast_eq_take]
+  · simp [h]
+
+theorem unquote_eq (v : Bytes) :
+    unquote v = if 2 ≤ v.length ∧ v.head? = some 0x22 ∧ v.getLast? = some 0x22
+                then (v.drop 1).take (v.length - 2) else v := by
+  unfold unquote
+  split
+  · rw [List.dropLast_eq_take, List.length_tail, ← List.drop_one]
+    congr 1
+  · rfl
+
+theorem isListAttr_any (name : Bytes) : ([sRt, sIf, sRel].any (name == ·)) = isListAttr name := by
+  simp [isListAttr, List.any, Bool.or_assoc]
+
+/-- what the splitter computes: name length, the three flags, and the pattern as the specification cuts it -/
+theorem parseFilter_some (q : Bytes) (hlt : scanEq q < q.length) :
+    ∃ p1 plen st,
+      parseFilter (some q) =
+        R.ok ⟨scanEq q, q, some p1, plen, q.take (scanEq q) == sHref, st, isListAttr (q.take (scanEq q))⟩ ∧
+      plen ≤ p1.length ∧
+      starSplit (if (q.take (scanEq q) == sHref) = true then stripSlash (q.drop (scanEq q + 1))
+                 else q.drop (scanEq q + 1)) = (st, p1.take plen) := by
+  have hn := scanEq_le q
+  unfold parseFilter
+  simp only []
+  rw [if_pos hlt, nameIs_eq q _ _ hn, isListAttrM_eq q _ hn, isListAttr_any]
+  simp only []
+  have hl0 : q.length - (scanEq q + 1) = (q.drop (scanEq q + 1)).length := by simp
+  rw [hl0, firstIs_eq]
+  simp only []
+  generalize q.drop (scanEq q + 1) = tok
+  generalize (q.take (scanEq q) == sHref) = uri
+  cases hsl : (tok.head? == some 0x2F && uri) with
+  | false =>
+    simp only [Bool.false_eq_true, if_false]
+    rw [lastIs_eq]
+    refine ⟨_, _, _, rfl, by split <;> omega, ?_⟩
+    have : (if uri = true then stripSlash tok else tok) = tok := by
+      cases uri with
+      | false => rfl
+      | true =>
+        simp only [Bool.and_true] at hsl
+        simp [stripSlash_eq, hsl]
+    rw [this, starSplit_eq]
+  | true =>
+    simp only [if_true]
+    have : tok.length - 1 = (tok.drop 1).length := by simp
+    rw [this, lastIs_eq]
+    refine ⟨_, _, _, rfl, by split <;> omega, ?_⟩
+    have h1 : (tok.head? == some 0x2F) = true := by
+      cases h : (tok.head? == some 0x2F) <;> simp [h] at hsl ⊢
+    have h2 : uri = true := by cases uri <;> simp at hsl ⊢
+    rw [h2]
+    simp only [if_true]
+    rw [stripSlash_eq, if_pos h1, starSplit_eq]
+
+theorem selectsM_eq (qf : Option Bytes) :
+    ∃ fp, parseFilter qf = R.ok fp ∧ ∀ r, selectsM fp r = R.ok (selects (qf.getD []) r) := by
+  cases qf with
+  | none => exact ⟨noFilter, rfl, fun r => by simp [selectsM, noFilter, selects]⟩
+  | some q =>
+    have hn := scanEq_le q
+    have hname : q.takeWhile (· != 0x3D) = q.take (scanEq q) := (take_scanEq q).symm
+    have hlen : (q.take (scanEq q)).length = scanEq q := by simp; omega
+    by_cases hlt : scanEq q < q.length
+    · obtain ⟨p1, plen, st, hpf, hple, hss⟩ := parseFilter_some q hlt
+      refine ⟨_, hpf, ?_⟩
+      intro r
+      unfold selectsM selects
+      simp only [Option.getD_some, hname, hlen]
+      by_cases h0 : scanEq q = 0
+      · simp [h0]
+      · have hne : ¬ scanEq q = q.length := by omega
+        simp only [if_neg h0, if_neg hne]
+        cases huri : (q.take (scanEq q) == sHref) with
+        | true =>
+          rw [huri] at hss
+          simp only [if_true] at hss
+          simp only [if_true]
+          rw [hss]
+          simp only []
+          have hsub : isListAttr (q.take (scanEq q)) = false := by
+            have : q.take (scanEq q) = sHref := by simpa using huri
+            rw [this]; decide
+          rw [hsub, matchM_eq _ _ _ _ _ _ (Nat.le_refl _) hple, List.take_length]
+        | false =>
+          rw [huri] at hss
+          simp only [Bool.false_eq_true, if_false] at hss
+          simp only [Bool.false_eq_true, if_false]
+          rw [findAttrM_eq q _ hn, hss]
+          simp only []
+          cases hfa : findAttr (q.take (scanEq q)) r.attrs with
+          | none => rfl
+          | some a =>
+            simp only []
+            cases hv : a.value with
+            | none => rfl
+            | some v =>
+              simp only []
+              rw [isQuoted_eq, unquote_eq]
+              by_cases hq : 2 ≤ v.length ∧ v.head? = some 0x22 ∧ v.getLast? = some 0x22
+              · simp only [hq, and_self, decide_true, if_true]
+                rw [matchM_eq _ _ _ _ _ _ (by simp; omega) hple]
+              · simp only [hq, decide_false, if_false]
+                rw [matchM_eq _ _ _ _ _ _ (Nat.le_refl _) hple, List.take_length]
+    · have heq : scanEq q = q.length := by omega
+      refine ⟨⟨scanEq q, q, none, 0, false, false, false⟩, by simp [parseFilter, hlt], ?_⟩
+      intro r
+      unfold selectsM selects
+      simp only [Option.getD_some, hname, hlen]
+      by_cases h0 : scanEq q = 0
+      · simp [h0]
+      · simp only [if_neg h0, if_pos heq, Bool.false_eq_true, if_false]
+        rw [findAttrM_eq q _ hn]
+        cases hfa : findAttr (q.take (scanEq q)) r.attrs with
+        | none => rfl
+        | some a =>
+          simp only []
+          cases hv : a.value with
+          | none => rfl
+          | some v =>
+            simp only []
+            rw [isQuoted_eq]
+            by_cases hq : 2 ≤ v.length ∧ v.head? = some 0x22 ∧ v.getLast? = some 0x22
+            · simp [hq, matchM]
+            · simp [hq, matchM]
+
 end Coap.M.LF
